@@ -166,7 +166,8 @@ def run_single(prop, seed, preset, want_case, schema_knobs=None, doc_knobs=None,
             # dropped instead of kept.  Only a response that equals, in every respect, the plan computed
             # with that one deviation is attributed to it; anything else is reported as it is.
             alt_knobs = dict(plan_knobs or {}, skip_null_excludes=True, reuse_results=plan.results)
-            alt = make_plan(case, Tape(seed, preset), faults, knobs=alt_knobs, base=getattr(plan, "base", None) or plan)
+            alt = make_plan(case, Tape(seed, preset), faults, knobs=alt_knobs, base=getattr(plan, "base", None) or plan,
+                            root_value=plan.root_value)
             if matches_deviation_plan(alt, out.resp, out.rt):
                 pv = [V("data_mismatch", "a selection carrying @skip(if: $v) with $v null (nullable variable with a default, explicit "
                         "null given) was dropped without an error; CollectFields keeps it: " + (pv[0]["detail"] if isinstance(pv[0], dict) else str(pv[0]))[:300],
